@@ -42,7 +42,16 @@ def stepLine (_ : Unit) (line : String) : Unit × String :=
       | none, _, _ => "unknown-definer"
       | _, _, _ => "bad-op"
     | [fn, a, b] =>
-      if fn = "rangelist" then
+      if fn = "idxcount" || fn = "idxcountspec" then
+        let kinds : Option (List Impl.Idx) := (b.splitOn ",").mapM fun k =>
+          if k = "i" then some Impl.Idx.int else if k = "s" then some .slice else if k = "t" then some .tensor
+          else if k = "e" then some .ellipsis else none
+        match a.toNat?, kinds with
+        | some n, some l =>
+          if fn = "idxcount" then showUnit (Impl.indexCountGuard n l)
+          else (if Spec.tooManyIndices n l then "err spec" else "ok")
+        | _, _ => "bad-op"
+      else if fn = "rangelist" then
         match a.toNat?, parseInts? b with
         | some n, some l => showUnit (Impl.tensorIndexGuard n l)
         | _, _ => "bad-op"
